@@ -155,12 +155,58 @@ def check_real(G, ctx, n_keys):
         ctx.count("real:" + name)
 
 
+def long_runs(G, ctx):
+    """distinctness at LARGE counts (the model derives keys from unbounded iteration / lane indices; a narrow counter dtype in the
+    implementation would repeat keys only beyond 2^8 / 2^16 occurrences): scans and maps of 300 and 70000 occurrences of one site"""
+    import jax
+    import jax.numpy as jnp
+    import jax.random as jr
+    normal, mv = G.normal, G.modular_vmap
+    progs = {
+        "scan-300": lambda: jax.lax.scan(lambda c, t: (c, normal.sample(0.0, 1.0)), 0.0, jnp.arange(300))[1],
+        "reverse-scan-300": lambda: jax.lax.scan(lambda c, t: (c, normal.sample(0.0, 1.0)), 0.0, jnp.arange(300), reverse=True)[1],
+        "fori-300": lambda: jax.lax.fori_loop(0, 300, lambda i, a: a.at[i].set(normal.sample(0.0, 1.0)), jnp.zeros(300)),
+        "scan-20-of-scan-20": lambda: jax.lax.scan(lambda c, t: (c, jax.lax.scan(lambda c2, t2: (c2, normal.sample(0.0, 1.0)), 0.0, jnp.arange(20))[1]), 0.0, jnp.arange(20))[1].reshape(-1),
+        "cond-in-scan-300": lambda: jax.lax.scan(lambda c, t: (c, jax.lax.cond(t % 2 == 0, lambda: normal.sample(0.0, 1.0), lambda: normal.sample(0.0, 1.0))), 0.0, jnp.arange(300))[1],
+        "scan-300-of-vmap-4": lambda: jax.lax.scan(lambda c, t: (c, mv(lambda: normal.sample(0.0, 1.0), in_axes=(), axis_size=4)()), 0.0, jnp.arange(300))[1].reshape(-1),
+        "vmap-300": lambda: mv(lambda: normal.sample(0.0, 1.0), in_axes=(), axis_size=300)(),
+        "sample_shape-300": lambda: normal.sample(0.0, 1.0, sample_shape=(300,)),
+        "scan-70000": lambda: jax.lax.scan(lambda c, t: (c, normal.sample(0.0, 1.0)), 0.0, jnp.arange(70000))[1],
+        "vmap-70000": lambda: mv(lambda: normal.sample(0.0, 1.0), in_axes=(), axis_size=70000)(),
+    }
+
+    def scan_combinator():
+        step = G.gen(lambda c, x: (c, normal(0.0, 1.0) @ "y"))
+        tr = G.Scan(step, length=G.const(300)).simulate(jnp.float32(0.0), jnp.zeros(300))
+        return tr.get_choices()["y"]
+    progs["Scan-combinator-300"] = scan_combinator
+    for name, f in progs.items():
+        case = {"kind": "long-run", "program": name}
+        try:
+            out = np.asarray(jax.jit(G.seed(f))(jr.key(ctx.seed + 11))).reshape(-1)
+        except Exception as ex:
+            impl.reset_handlers()
+            ctx.property_failure(None, f"{name}: raised {type(ex).__name__}: {str(ex)[:160]}", case)
+            continue
+        # float32 normals: a chance collision among 70000 draws has probability ~ n^2 / 2^25; compare the raw bit patterns' multiplicity
+        uniq = np.unique(out).size
+        expected_collisions = out.size ** 2 / 2.0 / 2 ** 23
+        if out.size - uniq > max(2.0, 6.0 * expected_collisions):
+            vals, counts = np.unique(out, return_counts=True)
+            ctx.property_failure(None, f"{name}: {out.size - uniq} of {out.size} equally parameterised draws of one seeded run are repeated values "
+                                 f"(chance level {expected_collisions:.2f}) - occurrences share their randomness", {**case, "repeated": int(out.size - uniq)})
+        ctx.case(sample=case if name == "scan-300" else None, nontrivial_key=("long", name))
+        ctx.count("long-run")
+
+
 def shard(ctx, shard_i, n):
     G = impl.load()
     rng = random.Random(ctx.seed * 601 + shard_i)
     if shard_i == 0:
         check_real(G, ctx, 4096 if ctx.thorough else 600)
         return
+    if shard_i == 1:
+        long_runs(G, ctx)
     for i in range(n):
         prog = seedprog.gen_prog(rng, rng.choice([1, 2, 2, 3] if ctx.thorough else [2, 2, 3]))
         check_keys(G, ctx, prog, ctx.seed * 1000 + shard_i * 50 + i)
